@@ -12,8 +12,9 @@ use parking_lot::Mutex;
 pub use crate::link::network::{Network, N};
 pub use crate::link::remote::{mqtt_connect, RemoteLink};
 pub use crate::router::iobufs::{Incoming, Outgoing};
-pub use crate::router::scheduler::{PauseReason, ScheduleReason, Status, Tracker};
-pub use crate::router::{Ack, Connection, Event, ShadowRequest};
+pub use crate::router::{
+    Ack, Connection, Event, PauseReason, ScheduleReason, ShadowRequest, Status, Tracker,
+};
 pub use crate::segments::{CommitLog, Position, Storage};
 
 thread_local! {
